@@ -385,6 +385,41 @@ func generateMore(suite string, seed uint64, i int, r *rng, id string, g gp) *Ca
 			for len(names) < 40 {
 				edges, names = genGraph(r, g)
 			}
+			if r.chance(1, 3) { // a wide tree: two adjacent inner layers of more than 32 nodes each (the wider one below), leaves under them
+				a := r.rangeIn(33, 45)
+				b := a + r.rangeIn(1, 30)
+				d := r.rangeIn(1, 5)
+				nm := func(k int) string { return "w" + strconv.Itoa(k) }
+				edges = nil
+				for j := 1; j <= a; j++ {
+					edges = append(edges, []string{nm(0), nm(j)})
+				}
+				for j := 0; j < b; j++ {
+					edges = append(edges, []string{nm(1 + r.intn(a)), nm(1 + a + j)})
+				}
+				for j := 0; j < d; j++ {
+					edges = append(edges, []string{nm(1 + a + r.intn(b)), nm(1 + a + b + j)})
+				}
+				if r.chance(1, 3) { // in-tree
+					for j := range edges {
+						edges[j][0], edges[j][1] = edges[j][1], edges[j][0]
+					}
+				}
+				for j := len(edges) - 1; j > 0; j-- {
+					k := r.intn(j + 1)
+					edges[j], edges[k] = edges[k], edges[j]
+				}
+				names = nil
+				seen := map[string]bool{}
+				for _, e := range edges {
+					for _, x := range e {
+						if !seen[x] {
+							seen[x] = true
+							names = append(names, x)
+						}
+					}
+				}
+			}
 		}
 		// NodeSpacing 0 is allowed in a part of the cases: coinciding points touch, they do not cross
 		cfg := genCfg(r, cp{p1: []int{0, 1}, p2: []int{0, 1}, p4: []int{0, 1, 2, 3}, p5: []int{0}, nsPos: !r.chance(1, 4), trace: true, mon: true}, names)
